@@ -151,6 +151,17 @@ recorded as a finding.
   with an exception other than `ConnectionError`, and C05's parser family hands every generated byte
   string (length 0 included) to the real `_recv_next`.  Lesson recorded in 11.8: a model that mirrors a
   crash must be paired with an oracle that rejects the crash, not one that expects it.
+* C05 injector, thorough tier, two more unfair inputs.  (a) A datagram carried two SACK chunks: the first
+  (cumulative TSN = what the peer really had) opened the window, the sender put the chunks waiting in
+  `_outbound_queue` on the wire while still handling the datagram, and the second SACK - "beyond everything
+  sent" when the datagram was built, hence left as generated - acknowledged one of them: a lying peer again
+  (the data is dropped for good, the association wedges).  The fairness rule now judges "sent" by everything
+  that can be on the wire when the chunk is processed: `_outbound_queue` and the messages waiting in
+  `_data_channel_queue` included.  (b) The per-call CPU budget of the parser family is measured with
+  `process_time()`, i.e. for the whole process; one 8-byte input was charged 0.56 s while a garbage collection
+  of the 40000-case run (or a decoder thread of an earlier case) was running.  A call that overruns is now
+  measured a second time after `gc.collect()` and the smaller figure counts - a parser that is slow on an
+  input is slow again.
 * Pairing of channels in the two-endpoint oracles (C01/C02/C06) matched every channel with every peer
   channel of the same stream id; the new "one id, several channels in a row" scenarios made that
   ambiguous (300/300 `corrupt-message` on the unchanged tree before any result was recorded).  Channels
